@@ -61,9 +61,13 @@ def instances(tier):
     # a piecewise-affine transform that is re-targeted between two warps
     for cls in ("Image", "MaskedImage"):
         out.append(("op", {"cls": cls, "op": "warp_to_mask_pwa_retarget", "shape": [3, 4], "ch": 1}, big))
+    # n-D: volumes (zoom and similarity warps in 3-D in both tiers, the rest in thorough)
+    for op in ("zoom", "warp_to_shape_similarity"):
+        out.append(("op", {"cls": "Image", "op": op, "shape": [2, 3, 3], "ch": 1}, big))
     if tier != "quick":
         for op in ("crop", "rescale", "resize", "mirror0", "warp_to_shape_affine"):
             out.append(("op", {"cls": "Image", "op": op, "shape": [2, 3, 3], "ch": 1}, big))
+        out.append(("op", {"cls": "MaskedImage", "op": "zoom", "shape": [2, 3, 3], "ch": 1}, big))
     return out
 
 
@@ -171,6 +175,9 @@ def _run_op(F, img, cfg):
         return [img.mirror(axis=int(op[-1]), **rt)]
     # the documented batch_size option of the warps (work split over batches of template points)
     bs = dict(batch_size=F.choice("batch", [1, 4, 100])) if cfg.get("batched") else {}
+    if op == "warp_to_shape_similarity":
+        tshape = tuple(F.choice("t%d" % k, [2, 3]) for k in range(nd))
+        return [img.warp_to_shape(tshape, K.mk_transform(F, "Similarity", "a", nd), warp_landmarks=True, **rt)]
     if op == "warp_to_shape_affine":
         tshape = tuple(F.choice("t%d" % k, [2, 3]) for k in range(nd))
         return [img.warp_to_shape(tshape, _affine(F, nd), warp_landmarks=True, **rt, **bs)]
